@@ -104,6 +104,7 @@ class Ctx:
         i = len(self.decisions)
         if i < len(self.replay):
             d = self.replay[i]
+            assert isinstance(d, bool), "decision replay out of sync"
             self.model = None
         else:
             m = self.current_model()
@@ -638,7 +639,10 @@ def to_float(x):
 
 
 def concretize(x, limit=4096):
-    """Fork over every feasible value of x (exhaustive, bounded by `limit`)."""
+    """Fork over every feasible value of x (exhaustive, bounded by `limit`).
+
+    Decisions are recorded as ("v", value, taken) so that a replayed prefix re-applies exactly the same constraints
+    (solver models are not guaranteed to repeat across re-executions)."""
     if isinstance(x, SymBool):
         return int(bool(x))
     if not isinstance(x, SymInt):
@@ -646,12 +650,26 @@ def concretize(x, limit=4096):
     c = ctx()
     n = 0
     while True:
-        m = c.current_model()
-        v = m.eval(x.z, model_completion=True).as_signed_long()
         n += 1
         if n > limit:
             raise Unsupported("too many values to concretize")
-        if c.branch(x.z == v):
+        i = len(c.decisions)
+        if i < len(c.replay):
+            tag, v, d = c.replay[i]
+            assert tag == "v", "decision replay out of sync"
+            c.model = None
+        else:
+            m = c.current_model()
+            v = m.eval(x.z, model_completion=True).as_signed_long()
+            r = c._check(x.z != v)
+            if r == z3.unknown:
+                raise Unsupported("solver unknown in concretize")
+            if r == z3.sat:
+                c.todo.append(c.decisions + [("v", v, False)])
+            d = True
+        c.decisions.append(("v", v, d))
+        c.solver.add(x.z == v if d else x.z != v)
+        if d:
             return v
 
 
